@@ -165,6 +165,8 @@ def run_schedule(db, ref, prog, sched, res, fails, mode, prop):
     commit_order = []
     executed = {t: [] for t in range(len(prog))}
     log = []
+    point_only = prop == "C05" and all(s[3] in ("read-pk", "update-key") for st, _ in prog for s in st)
+    mops, mevents = ["I %d %d" % (k, a) for k, a, _ in BASE], []
     tainted = set()            # transactions whose read was affected by the listed finding F-IDX-DIRTY
     dirty_key_update = {}      # t -> True if it has an uncommitted key-changing update / delete / insert on the indexed column
     for (t, i) in sched:
@@ -174,14 +176,25 @@ def run_schedule(db, ref, prog, sched, res, fails, mode, prop):
         if i == len(stmts):
             if end == "commit":
                 db.cmd("commit x%d" % t); sim.commit(t); commit_order.append(t); log.append("commit x%d" % t)
+                mops.append("C %d" % (t + 1)); mevents.append("c:%d" % (t + 1))
             else:
                 db.cmd("abort x%d" % t); sim.abort(t); log.append("abort x%d" % t)
+                mops.append("A %d" % (t + 1)); mevents.append("a:%d" % (t + 1))
             alive[t] = False
             dirty_key_update.pop(t, None)
             continue
         sql, refcmds, query, kind = stmts[i]
         ans = db.cmd("tsql x%d %s" % (t, sql))
         log.append("x%d: %s => %s" % (t, sql[:60], ans[:60]))
+        if point_only:
+            kk = int(sql.split("k = ")[-1].rstrip(";"))
+            if kind == "read-pk":
+                mops.append("R %d %d" % (t + 1, kk))
+                mevents.append("a:%d" % (t + 1) if ans == "aborted" else "r:%d:%d:%s" % (t + 1, kk, canon_rows(ans)[3:].replace("i:", "") or "0"))
+            else:
+                nv = int(sql.split("SET a = ")[1].split(" ")[0])
+                mops.append("W %d %d %d" % (t + 1, kk, nv))
+                mevents.append("a:%d" % (t + 1) if ans == "aborted" else "w:%d:%d:%d" % (t + 1, kk, nv))
         if ans == "aborted":
             db.cmd("abort x%d" % t); sim.abort(t); alive[t] = False; dirty_key_update.pop(t, None)
             res.extra["aborted_statements"] = res.extra.get("aborted_statements", 0) + 1
@@ -224,6 +237,11 @@ def run_schedule(db, ref, prog, sched, res, fails, mode, prop):
             for c in refcmds:
                 ref.cmd(c.replace("{T}", "F"))
     wantf = ref.cmd("C F")
+    if point_only:
+        # correspondence with the extracted scheduling model (Model/Sched.v): same schedule, same events (read values,
+        # lock denials as aborts), same final values
+        fin = ",".join("%d=%d" % (int(r.split(",")[0][2:]), int(r.split(",")[1][2:])) for r in sorted(final[3:].split(";"), key=lambda r: int(r.split(",")[0][2:])) if r) if final.startswith("ok") else final
+        res.extra.setdefault('_mc', []).append((";".join(mops), " ".join(mevents) + " | " + fin, "\n".join(log)))
     if final != wantf and not tainted:
         fails.append(("\n".join(log), "final table differs from the serial execution of the committed transactions in commit order: engine %s | serial %s" % (final[:300], wantf[:300])))
     return True
@@ -272,3 +290,15 @@ def run(res, replay=None, mode="mixed", prop="C04"):
         db.destroy(); ref.close()
     for d, w in fails[:5]:
         res.oracle_failures.append(("# schedule:\n" + d, w))
+    mc = res.extra.pop("_mc", [])
+    if mc:
+        out = run_model("c05_driver", "\n".join(m[0] for m in mc) + "\n")[1].strip().split("\n")
+        res.extra["model_schedules_compared"] = len(mc)
+        if len(out) != len(mc):
+            res.broken.append("c05_driver answered %d lines for %d schedules" % (len(out), len(mc)))
+        else:
+            for (ops, got, log), want in zip(mc, out):
+                if got != want:
+                    res.mismatches.append(("# schedule: %s\n%s" % (ops, log), "engine events/final %s | scheduling model %s" % (got, want)))
+                    if len(res.mismatches) >= 5:
+                        break
